@@ -169,6 +169,13 @@ class PoolHandler:
     def __enter__(self):
         self.original_log_likelihood = self.aspire_instance.log_likelihood
         self.original_log_prior = self.aspire_instance.log_prior
+        # The handler may be entered again before it is left (nested use of
+        # the same object): every exit restores what its own entry found
+        if not hasattr(self, "_entered"):
+            self._entered = []
+        self._entered.append(
+            (self.original_log_likelihood, self.original_log_prior)
+        )
         if self.pool is not None:
             logger.debug("Updating map function in log-likelihood method")
             self.aspire_instance.log_likelihood = partial(
@@ -182,6 +189,10 @@ class PoolHandler:
         return self.pool
 
     def __exit__(self, exc_type, exc_value, traceback):
+        (
+            self.original_log_likelihood,
+            self.original_log_prior,
+        ) = self._entered.pop()
         self.aspire_instance.log_likelihood = self.original_log_likelihood
         self.aspire_instance.log_prior = self.original_log_prior
         if self.close_pool:
